@@ -31,9 +31,18 @@ pub struct CaseResult {
 }
 
 impl CaseResult {
+    /// Records a failure. The first one wins, except that a failure whose signature is a listed known
+    /// finding gives way to a later one that is not: known findings must not mask other violations
+    /// of the same case.
     pub fn fail(&mut self, sig: impl Into<String>, what: impl Into<String>) {
-        if self.verdict.is_none() {
-            self.verdict = Some((sig.into(), what.into()));
+        let sig = sig.into();
+        match &self.verdict {
+            None => self.verdict = Some((sig, what.into())),
+            Some((cur, _)) => {
+                if is_known(cur) && !is_known(&sig) {
+                    self.verdict = Some((sig, what.into()));
+                }
+            }
         }
     }
     pub fn class(&mut self, c: impl Into<String>) {
@@ -42,6 +51,15 @@ impl CaseResult {
             self.classes.push(c);
         }
     }
+}
+
+fn is_known(sig: &str) -> bool {
+    use std::sync::OnceLock;
+    static KNOWN: OnceLock<std::sync::Mutex<std::collections::HashMap<String, vcore::Known>>> = OnceLock::new();
+    let prop = sig.split(':').next().unwrap_or("").to_string();
+    let m = KNOWN.get_or_init(Default::default);
+    let mut g = m.lock().unwrap();
+    g.entry(prop.clone()).or_insert_with(|| vcore::Known::load(&prop)).matches(sig)
 }
 
 /// Normalise a panic message: digit runs → N, long messages cut, so signatures are stable.
